@@ -32,6 +32,8 @@ def requests():
         Request(LM, fn=["stir::LmToProjData::process_data", "stir::LmToProjData::get_bin_from_event", "stir::LmToProjData::do_post_normalisation"], files=["/repo/src/listmode_buildblock/LmToProjData.cxx"]),
         Request(LL, fn=["stir::LM_distributable_computation"], files=[".*/recon_buildblock/distributable\\.txx"]),
         Request(LL, fn=["stir::PoissonLogLikelihoodWithLinearModelForMeanAndListModeDataWithProjMatrixByBin::read_listmode_batch"]),
+        Request(LL, fn=["stir::PoissonLogLikelihoodWithLinearModelForMeanAndListModeData.*::.*"], files=["/repo/src/recon_buildblock/PoissonLogLikelihoodWithLinearModelForMeanAndListModeData.*\\.cxx", "/repo/src/include/stir/recon_buildblock/PoissonLogLikelihoodWithLinearModelForMeanAndListModeData.*\\.h"]),
+        Request("src/recon_buildblock/PoissonLogLikelihoodWithLinearModelForMeanAndListModeData.cxx", fn=["stir::PoissonLogLikelihoodWithLinearModelForMeanAndListModeData::.*"], files=["/repo/src/recon_buildblock/PoissonLogLikelihoodWithLinearModelForMeanAndListModeData\\.cxx", "/repo/src/include/stir/recon_buildblock/PoissonLogLikelihoodWithLinearModelForMeanAndListModeData\\.h"]),
     ]
 
 
@@ -398,6 +400,90 @@ def rule_j_batches_continue_with_the_clock(ctx, f):
     return 1
 
 
+def rule_k_cache_follows_the_model(ctx, fns):
+    """The list-mode objective caches, per event, the bin AND the additive term (for the frame, segment range and number of events
+    asked for).  Its gradient uses that cache, so the cache has to follow the model: set_up() re-makes it whenever it decides to
+    cache.  A path of set_up() that keeps an existing cache is sound only under member flags that EVERY public setter of something
+    cache_listmode_file() reads clears (seed C14-5)."""
+    from engine.tree import written_lvalues
+
+    RULE = "C14.k-event-cache-follows-the-model"
+    CLS = "stir::PoissonLogLikelihoodWithLinearModelForMeanAndListModeData"
+    by = {}
+    for f in sorted(fns, key=lambda g: bool(g.is_dependent)):
+        if f.body is not None and (f.cls or "").startswith(CLS):
+            by.setdefault((f.cls, f.short, len(f.params)), f)
+    su = [f for (c, sh, _n), f in by.items() if sh == "set_up_before_sensitivity" and c.endswith("WithProjMatrixByBin") and f.cfg_raw]
+    P = [f for (c, sh, _n), f in by.items() if sh == "cache_listmode_file" and c.endswith("WithProjMatrixByBin")]
+    if not su or not P:
+        ctx.fail_broken("C14.k: set_up_before_sensitivity / cache_listmode_file of the list-mode objective function not found")
+        return 0
+    su, P = su[0], P[0]
+    cfg = CFG(su)
+    cids = {c.i for c in su.calls() if (c.callee or "").endswith("::cache_listmode_file") and c.i in cfg.pos}
+    marks = [m for m in su.walk() if m.k == "BinaryOperator" and m.op == "=" and key(m.c[0].strip()) == "this.cache_lm_file" and key(m.c[1].strip()) == "true" and m.i in cfg.pos]
+    if not marks or not cids:
+        ctx.unrec(su.qn, "C14.k: `cache_lm_file = true` / the call of cache_listmode_file() not found in set_up_before_sensitivity")
+        return 0
+
+    def fields_read(f, seen):
+        out = set()
+        for m in f.walk():
+            if m.k == "MemberExpr" and m.get("mk") == "field" and m.c and m.c[0].strip().k == "CXXThisExpr":
+                par = m.parent
+                if par is not None and par.k == "BinaryOperator" and par.op == "=" and par.c and par.c[0] is m:
+                    continue
+                out.add(m.get("n"))
+        for c in f.calls():
+            o = c.call_object()
+            if o is not None and o.strip().k == "CXXThisExpr":
+                for (cl, sh, _n), g in by.items():
+                    if g.qn == c.callee and g.qn not in seen:
+                        seen.add(g.qn)
+                        out |= fields_read(g, seen)
+        return out
+
+    reads = fields_read(P, {P.qn})
+    ctx.stats["event_cache_made_from"] = sorted(reads)
+    n = 0
+    for k_, mk_ in enumerate(marks):
+        w = cfg.must_pass_before_exit([mk_], lambda x: x.i in cids)
+        if w is None:
+            ctx.ob(RULE, su.qn.split("<")[0], "caching-set-up#%d" % k_, True, mk_.where(), "every path of set_up_before_sensitivity() that decides to cache runs cache_listmode_file(): the cache is made from the current additive term, frame, segment range and number of events")
+            n += 1
+            continue
+        # the skip: if-statements after the mark with a return in a branch; the bool members they test
+        flags = set()
+        for a in su.walk():
+            if a.k == "IfStmt" and a.i > mk_.i and a.c and any(x.k == "ReturnStmt" for x in a.walk()) and not any(x.i in cids for x in a.walk()):
+                for m in a.c[0].walk():
+                    if m.k == "MemberExpr" and m.get("mk") == "field" and m.c and m.c[0].strip().k == "CXXThisExpr" and re.fullmatch(r"(const )?bool", (m.type or "").strip()):
+                        flags.add(m.get("n"))
+        if not flags:
+            ctx.ob(RULE, su.qn.split("<")[0], "caching-set-up#%d" % k_, False, mk_.where(), "a path of set_up_before_sensitivity() decides to cache and returns without cache_listmode_file(), under no member flag: the gradient then uses a cache made for an earlier additive term / frame / number of events")
+            n += 1
+            continue
+        setters = [g for (cl, sh, np_), g in sorted(by.items(), key=lambda kv: (kv[0][0], kv[0][1])) if sh.startswith("set_") and sh not in ("set_up", "set_defaults", "set_up_before_sensitivity") and np_ >= 1 and g.cfg_raw and g.d.get("access", 0) == 0]
+        for g in setters:
+            ws = {}
+            for m in g.walk():
+                for e in written_lvalues(m):
+                    r = root_of_lvalue(e)
+                    if r.startswith("this.") and r[5:] in reads:
+                        ws.setdefault(r[5:], []).append(m)
+            if not ws:
+                continue
+            gcfg = CFG(g)
+            missing = []
+            for F in sorted(flags):
+                clr = {m.i for m in g.walk() if m.k == "BinaryOperator" and m.op == "=" and key(m.c[0].strip()) == "this." + F and key(m.c[1].strip()) == "false" and m.i in gcfg.pos}
+                if not clr or gcfg.paths_avoiding([(gcfg.entry, -1)], lambda x, c_=clr: x.i in c_) is not None:
+                    missing.append(F)
+            ctx.ob(RULE, g.qn.split("<")[0] + "/%d" % len(g.params), "clears:%s<-%s" % (",".join(sorted(flags)), ",".join(sorted(ws))), not missing, g.where(), ("clears %s, so the next set_up() re-makes the event cache" % ", ".join(sorted(flags))) if not missing else ("set_up_before_sensitivity() keeps the existing event cache while `%s` is set, cache_listmode_file() reads `%s`, and this setter changes it without clearing the flag: the list-mode gradient keeps using what was cached for the previous value and no longer agrees with the projection-data gradient of the same model" % (", ".join(missing), ", ".join(sorted(ws)))))
+            n += 1
+    return n
+
+
 def _subscript_chain(n):
     idx = []
     n = n.strip()
@@ -451,6 +537,8 @@ def run(ctx):
         ctx.require_count("C14.i-additive-term-of-the-event", 1)
         rule_j_batches_continue_with_the_clock(ctx, rb[0])
         ctx.require_count("C14.j-batches-continue-with-the-clock", 1)
+    rule_k_cache_follows_the_model(ctx, us[3].functions + us[4].functions)
+    ctx.require_count("C14.k-event-cache-follows-the-model", 1)
     ctx.require_count("C14.a-batches-partition", 6)
     ctx.require_count("C14.c-store-bounded", 4)
     ctx.require_count("C14.d-increment", 3)
